@@ -1055,9 +1055,9 @@ theorem prologue_sim2 (pre : Stmt) (all : List String) (te : C.TyEnv) (acc : Top
     ((∃ s0 stc0 f1, C.initGlobals acc.te acc.globals.reverse [] = .ok s0 ∧
         C.exec acc.te f1 (seqOf acc.setup.reverse) { store := s0, trace := [] } = .ok stc0 ∧
         StRel acc.te st0 stc0) ∨
-     C.initGlobals acc.te acc.globals.reverse [] = .error .overflow ∨
+     UB (C.initGlobals acc.te acc.globals.reverse []) ∨
      (∃ s0 f1, C.initGlobals acc.te acc.globals.reverse [] = .ok s0 ∧
-        C.exec acc.te f1 (seqOf acc.setup.reverse) { store := s0, trace := [] } = .error .overflow)) := by
+        UB (C.exec acc.te f1 (seqOf acc.setup.reverse) { store := s0, trace := [] }))) := by
   have he0 : Eqv [] ({} : TopAcc).te := fun _ => rfl
   obtain ⟨hte, _, _, hdecl, hinv, _⟩ := trTop2_facts all pre [] {} acc te he0 hokTop hacc hpreall
   obtain ⟨hI1, hI2, hI3⟩ := hinv Inv_empty
@@ -1094,7 +1094,7 @@ theorem InF2_unfold (pre : Stmt) (body : Option Stmt) :
 
 theorem C01_partial_promotion_aux (p : Prog) (c : CProg) (N fuel : Nat) (t : List Ev)
     (hin : InF2 p = true) (htr : tr2 p = .ok c) (hpy : Py.run p N fuel = .ok t) :
-    ∃ fuel', C.run c N fuel' = .ok t ∨ C.run c N fuel' = .error .overflow := by
+    ∃ fuel', C.run c N fuel' = .ok t ∨ UB (C.run c N fuel') := by
   obtain ⟨pre, body⟩ := p
   rw [InF2_unfold] at hin
   have hall1 : ∀ x ∈ pre.assigned, x ∈ allOf pre body := fun x hx => List.mem_append_left _ hx
@@ -1150,21 +1150,23 @@ theorem C01_partial_promotion_aux (p : Prog) (c : CProg) (N fuel : Nat) (t : Lis
         rw [C_exec_mono (Nat.le_max_left f1 f2) (by rw [hf1]; intro e; cases e), hf1]
       have hpass : C.passes acc.te (max f1 f2) loop N stc0 = C.passes acc.te f2 loop N stc0 := by
         apply C_passes_mono (Nat.le_max_right f1 f2)
-        rcases hsimN with ⟨stcN, h, _⟩ | h <;> rw [h] <;> intro e <;> cases e
+        rcases hsimN with ⟨stcN, h, _⟩ | h
+        · rw [h]; intro e; cases e
+        · exact UB_ne_fuel h
       unfold C.run
       simp only [htef, hs0, ok_bind, hsetup, hpass]
       rw [if_neg (by rw [hr0.fl, hfl0]; intro h; cases h)]
       rcases hsimN with ⟨stcN, h, hrN⟩ | h
       · left; rw [h, ok_bind, hrN.tr]; rfl
-      · right; rw [h]; rfl
+      · right; exact ub_bind _ h
     · refine ⟨0, .inr ?_⟩
       unfold C.run
-      simp only [htef, hs0]
-      rfl
+      simp only [htef]
+      exact ub_bind _ hs0
     · refine ⟨f1, .inr ?_⟩
       unfold C.run
-      simp only [htef, hs0, ok_bind, hf1]
-      rfl
+      simp only [htef, hs0, ok_bind]
+      exact ub_bind _ hf1
 
 
 
